@@ -96,6 +96,14 @@ var fsMutators = map[string]bool{
 	"io/ioutil.WriteFile": true, "io/ioutil.TempFile": true, "io/ioutil.TempDir": true,
 }
 
+// fsReaders: the calls that look at the file system by path without changing it (for fs_access,
+// together with fsMutators).
+var fsReaders = map[string]bool{
+	"os.Stat": true, "os.Lstat": true, "os.Open": true, "os.ReadFile": true, "os.ReadDir": true, "os.Readlink": true,
+	"io/ioutil.ReadFile": true, "io/ioutil.ReadDir": true,
+	"path/filepath.Walk": true, "path/filepath.WalkDir": true, "path/filepath.Glob": true, "path/filepath.EvalSymlinks": true,
+}
+
 // mulTerm is a*b. In a function whose contract says `opaque_mul`, a product of two non-literal
 // terms is the uninterpreted imul(a, b) - non-linear arithmetic in a path condition makes every
 // later obligation on that path slow or undecided - with the facts the contracts need: it is
